@@ -1440,23 +1440,99 @@ func classifyStall(gs []gblock) (key, msg string) {
 		}
 		watcher = watcher || (fin && ws)
 	}
-	if !watcher {
-		return "", ""
-	}
-	for _, g := range gs {
-		replay := false
-		for _, fn := range g.funcs {
-			if strings.HasSuffix(fn, "grpc.(*clientStream).retryLocked") {
-				replay = true
+	if watcher {
+		for _, g := range gs {
+			replay := false
+			for _, fn := range g.funcs {
+				if strings.HasSuffix(fn, "grpc.(*clientStream).retryLocked") {
+					replay = true
+				}
+			}
+			if replay {
+				top := firstGrpcFunc(g)
+				return "rpc-cannot-end-at-deadline-during-retry-replay:" + top,
+					"the goroutine that ends the RPC when its context is done is blocked on clientStream.mu in clientStream.finish, while the RPC goroutine holds that mutex in retryLocked/replayBufferLocked and is itself blocked in " + top + ": the RPC does not terminate at its deadline (only a later event from the server can end it)"
 			}
 		}
-		if replay {
-			top := firstGrpcFunc(g)
-			return "rpc-cannot-end-at-deadline-during-retry-replay:" + top,
-				"the goroutine that ends the RPC when its context is done is blocked on clientStream.mu in clientStream.finish, while the RPC goroutine holds that mutex in retryLocked/replayBufferLocked and is itself blocked in " + top + ": the RPC does not terminate at its deadline (only a later event from the server can end it)"
+	}
+	return classifyLockOrder(gs)
+}
+
+// classifyLockOrder recognises a lock-order deadlock between grpc's own
+// goroutines in a dead bubble: some goroutine waits for a sync.Mutex from inside
+// a controlBuffer.executeAndPut / execute callback (so it HOLDS controlBuf.mu and
+// wants a second lock), while another goroutine waits at a controlBuffer method
+// (it wants controlBuf.mu) - with every goroutine of the bubble blocked for good
+// neither can ever proceed.  The transport mutexes are never held across a
+// durable wait, so this state is a deadlock in real time as well, not an artefact
+// of the stopped virtual clock.  The key names the two lock sites.
+func classifyLockOrder(gs []gblock) (key, msg string) {
+	inner, outer := "", ""
+	nMutex := 0
+	for _, g := range gs {
+		if !strings.HasPrefix(g.state, "sync.Mutex.Lock") {
+			continue
+		}
+		nMutex++
+		var grpcFuncs []string
+		for _, fn := range g.funcs {
+			if isGrpcFunc(fn) {
+				grpcFuncs = append(grpcFuncs, fn)
+			}
+		}
+		if len(grpcFuncs) == 0 {
+			continue
+		}
+		top := grpcFuncs[0]
+		nested := false
+		for _, fn := range grpcFuncs[1:] {
+			if strings.HasSuffix(fn, "(*controlBuffer).executeAndPut") || strings.HasSuffix(fn, "(*controlBuffer).execute") {
+				nested = true
+			}
+		}
+		switch {
+		case nested && !strings.Contains(top, "(*controlBuffer)"):
+			// holds controlBuf.mu, wants the lock taken in `top`
+			if inner == "" {
+				inner = firstGrpcFunc(g)
+			}
+		case strings.Contains(top, "(*controlBuffer)"):
+			// wants controlBuf.mu; name the site by the first caller outside controlBuffer
+			site := ""
+			for _, fn := range grpcFuncs {
+				if !strings.Contains(fn, "(*controlBuffer)") {
+					site = strings.TrimPrefix(fn, "google.golang.org/grpc/")
+					if k := strings.Index(site, ".func"); k > 0 {
+						site = site[:k]
+					}
+					break
+				}
+			}
+			// prefer the transport's reader goroutine as the named waiter
+			isReader := false
+			for _, fn := range g.funcs {
+				if strings.HasSuffix(fn, "(*http2Client).reader") || strings.HasSuffix(fn, "(*http2Server).HandleStreams") {
+					isReader = true
+				}
+			}
+			if outer == "" || isReader {
+				outer = site
+				if isReader {
+					for _, fn := range grpcFuncs {
+						if strings.Contains(fn, ".handle") || strings.HasSuffix(fn, "operateHeaders") {
+							outer = strings.TrimPrefix(fn, "google.golang.org/grpc/") + "->" + site
+							break
+						}
+					}
+				}
+			}
 		}
 	}
-	return "", ""
+	if inner == "" || outer == "" {
+		return "", ""
+	}
+	return "lock-order-deadlock:" + outer + "|" + inner,
+		fmt.Sprintf("the transport is deadlocked (%d goroutines wait for a sync.Mutex, every goroutine of the bubble is blocked for good): %s waits for controlBuf.mu while holding another transport lock, and %s waits for that lock from inside a controlBuffer callback, i.e. while holding controlBuf.mu (lock-order inversion); RPCs can no longer terminate, ClientConn.Close would hang and the transport goroutines leak", nMutex, outer, inner)
 }
 
 // ---------------------------------------------------------------- driver glue
@@ -1469,6 +1545,15 @@ func light() int {
 }
 
 func runCase(t *testing.T, r *vlib.Run, c caseID) *caseResult {
+	if c.Fam == "goaway" {
+		gsc := genGoAway(r.Rand(c.Fam, c.I))
+		res := &caseResult{Fam: c.Fam, I: c.I, Counters: map[string]int64{}}
+		currentRes.Store(res)
+		res.Desc = fmt.Sprintf("workers=%d per_worker=%d goaway_every=%d last=%s", gsc.Workers, gsc.PerWorker, gsc.GoAwayEvery, gsc.LastID)
+		r.Progress(c.Fam, c.I, res.Desc)
+		synctest.Test(t, func(t *testing.T) { runGoAway(gsc, res) })
+		return res
+	}
 	sc := gen(r.Rand(c.Fam, c.I), c.Fam, c.I)
 	res := &caseResult{Fam: c.Fam, I: c.I, Counters: map[string]int64{}}
 	currentRes.Store(res)
@@ -1498,6 +1583,7 @@ func TestVerifC11(t *testing.T) {
 		{"bytes", r.N(180, 1800) / light()},
 		{"handshake", r.N(60, 600) / light()},
 		{"values", r.N(160, 1600) / light()},
+		{"goaway", r.N(60, 600) / light()},
 	}
 	var cases []caseID
 	for _, fm := range fams {
@@ -1508,10 +1594,15 @@ func TestVerifC11(t *testing.T) {
 		}
 	}
 	out := runIsolated(isoConfig{workerTest: "TestWorkerC11", chunk: 25, watchdog: 6 * time.Minute}, cases)
-	report(r, cases, out, func(c caseID) any { return gen(r.Rand(c.Fam, c.I), c.Fam, c.I) })
+	report(r, cases, out, func(c caseID) any {
+		if c.Fam == "goaway" {
+			return genGoAway(r.Rand(c.Fam, c.I))
+		}
+		return gen(r.Rand(c.Fam, c.I), c.Fam, c.I)
+	})
 	r.Finish(vlib.Spec{
 		Level: "fault_enumeration",
-		Rule: "1-6 concurrent RPCs (unary / server-streaming / bidi, deadlines 1 ms..10 s virtual or none, fail-fast or wait-for-ready) on a real ClientConn against a scripted HTTP/2 server over up to 5 successive connections (normal or hostile handshakes); 8-47 operations per case drawn from a frame grammar (DATA/HEADERS/CONTINUATION/RST_STREAM/SETTINGS/PING/GOAWAY/WINDOW_UPDATE/PUSH_PROMISE/PRIORITY/unknown/oversize frames on open|closed|idle|even|zero|huge stream ids, 38 header-field classes, frames without END_HEADERS followed by other frames, floods, connection close/reset) and, family 'bytes', bit-flipped/truncated/spliced/garbage bytes derived from valid frame bytes; family 'handshake' plays hostile connection prefaces; family 'values' (and the VALUES operation of the other families) delivers adversarial VALUES of the fields the client parses - grpc-message percent-escape shapes (complete escapes followed by a trailing '%' / '%X', invalid hex, '%%', invalid UTF-8, very long), grpc-status, grpc-status-details-bin, grpc-encoding, content-type, :status, grpc-retry-pushback-ms (with a retry policy), -bin metadata and junk fields - in initial headers, Trailers-Only responses and real trailers, walking every fixed shape deterministically; " +
+		Rule: "1-6 concurrent RPCs (unary / server-streaming / bidi, deadlines 1 ms..10 s virtual or none, fail-fast or wait-for-ready) on a real ClientConn against a scripted HTTP/2 server over up to 5 successive connections (normal or hostile handshakes); 8-47 operations per case drawn from a frame grammar (DATA/HEADERS/CONTINUATION/RST_STREAM/SETTINGS/PING/GOAWAY/WINDOW_UPDATE/PUSH_PROMISE/PRIORITY/unknown/oversize frames on open|closed|idle|even|zero|huge stream ids, 38 header-field classes, frames without END_HEADERS followed by other frames, floods, connection close/reset) and, family 'bytes', bit-flipped/truncated/spliced/garbage bytes derived from valid frame bytes; family 'handshake' plays hostile connection prefaces; family 'goaway' runs 16-48 worker goroutines issuing RPCs back to back against a server that sends stream-disowning GOAWAYs after every N-th HEADERS (reader goroutine vs. NewStream in parallel; transport deadlocks are reported by the stall monitor); family 'values' (and the VALUES operation of the other families) delivers adversarial VALUES of the fields the client parses - grpc-message percent-escape shapes (complete escapes followed by a trailing '%' / '%X', invalid hex, '%%', invalid UTF-8, very long), grpc-status, grpc-status-details-bin, grpc-encoding, content-type, :status, grpc-retry-pushback-ms (with a retry policy), -bin metadata and junk fields - in initial headers, Trailers-Only responses and real trailers, walking every fixed shape deterministically; " +
 			"non-trivial = a (frame type, stream state, field class) triple sent while the connection was alive; distinct = number of different triples",
 		Assumptions: []string{
 			"every case runs in a child process; a dead child (panic, fatal error, synctest 'blocked goroutines remain') is attributed to the case whose start was logged last",
